@@ -14,7 +14,7 @@ connection carries (to the model: a call) · d<k>:<n> release the object of the 
 callbacks (to the model: a call) · x<k>:<n>:<m> a hostile but well-formed request naming a foreign / builtin type and answering
 the server's class inspection with junk (to the model: a handled frame) · l<k> call that lends an object ·
 o<k>:<n> use the object of the n-th lend (0-based, whole case) on connection k · g<k> graceful close ·
-a<k> abrupt close (FIN) · z<k> abrupt close by reset (RST; the same to the model) · X server close · i<k>:<letters> hostile frames given as items (h handled, e empty, b bad,
+a<k> abrupt close (FIN) · E the accept loop's accept() fails once (EMFILE / ECONNABORTED) · z<k> abrupt close by reset (RST; the same to the model) · X server close · i<k>:<letters> hostile frames given as items (h handled, e empty, b bad,
 t incomplete) · r<k>:<hex>[:<inhex>=<outhex|E>,..] hostile bytes (zlib results of the compressed frames supplied).
 
 Output: one segment per token joined by " ; ":
@@ -75,6 +75,7 @@ def parseCred : List Char → Option Cred
 def parseTok (tok : String) : Option Tok :=
   match tok.toList with
   | ['X'] => some (.op .serverClose)
+  | ['E'] => some (.op .acceptFault)
   | 'c' :: cs => match splitColon cs with
     | [k, c] => match parseNatChars k, parseCred c with
       | some k, some c => some (.op (.connect k c))
@@ -199,7 +200,7 @@ def runToks (dbg : Bool) : List Tok → St → List (Option Nat) → List String
 /-- the configuration of the code as it is: the two measured facts about the pool come from the generated constants -/
 def cfgOfCode (kind : Kind) (auth : Bool) (nb : Nat) : Cfg :=
   { kind := kind, auth := auth, nb := nb, spare := Gen.Srv.poolDropSparesNewcomer,
-    closeUnblocks := Gen.Srv.poolCloseUnblocksWorkers }
+    closeUnblocks := Gen.Srv.poolCloseUnblocksWorkers, acceptTough := Gen.Srv.acceptSurvivesTransientError }
 
 def showItem : Item → String
   | .req _ _ => "q" | .handled => "h" | .empty => "e" | .bad => "b" | .part => "t" | .bye => "y" | .fin => "f"
